@@ -12,7 +12,7 @@ import json, os, re
 from vlib import Broken, read_ndjson, write_ndjson, validate_history_trace, parallel, tlc_vh_lines
 
 SPEC = "c06_flow_queue"
-IDS = ["r1", "r2", "r3", "r4", "r5", "r6"]
+IDS = ["r1", "r2", "r3", "r4", "r5", "r6", "r7", "r8", "r9"]
 TICK_MS = 1000          # one model tick of a directed schedule = one wall-clock second (quota windows are whole seconds)
 SLACK_MS = 3000         # scheduling slack of the time predicate only (machine shared with other jobs)
 
@@ -468,6 +468,82 @@ def burst_scenario(rng, k):
             "steps": steps}
 
 
+def expiry_burst_scenario(rng, k):
+    """6-8 waiters of 3+ priority levels behind a held loop; one or two of them (queued a second earlier: at the root or
+    in the middle of the heap) reach their TTL and are removed from the queue while the others wait; then the loop is
+    released and admits the rest one pop at a time.  The order clause is judged on the recording: removing a waiter
+    from inside the queue must not disturb the order of the others (gated recording)."""
+    shape = ["root", "root2", "mid", "root", "root2", "any"][k % 6]
+    n = rng.choice([6, 7])
+    if shape == "root":
+        victims, others = [0], [rng.randint(1, 5) for _ in range(n)]
+    elif shape == "root2":
+        victims, others = [0, 0], [rng.randint(1, 5) for _ in range(n - 1)]
+    elif shape == "mid":
+        victims, others = [rng.randint(1, 3)], [rng.randint(0, 5) for _ in range(n)]
+    else:
+        victims, others = [rng.randint(0, 5) for _ in range(rng.choice([1, 2]))], [rng.randint(0, 5) for _ in range(n)]
+    steps = [{"op": "hold", "point": "q.loop_tick", "id": ""}]
+    ids = list(IDS)
+    vids = []
+    for pr in victims:
+        i = ids.pop(0)
+        vids.append(i)
+        steps += [{"op": "arrive", "id": i, "prio": "p%d" % pr}, {"op": "await", "point": "q.enqueued", "id": i}]
+    steps.append({"op": "until", "ms": 1000})
+    for pr in others:
+        i = ids.pop(0)
+        steps += [{"op": "arrive", "id": i, "prio": "p%d" % pr}, {"op": "await", "point": "q.enqueued", "id": i}]
+    for i in vids:          # TTL of the early ones (2 s) falls due at ~2000 ms: answered, then taken out of the queue
+        steps += [{"op": "await_verdict", "id": i}, {"op": "await", "point": "q.removed", "id": i}]
+    steps += [{"op": "unhold", "point": "q.loop_tick", "id": ""}, {"op": "end"}]
+    return {"name": "expiry-burst-%d" % k, "config": {"ttl_s": 2, "queue_size": 9, "qmax": rng.choice([9, 9, 3]), "qwin_s": 1, "slack_ms": SLACK_MS},
+            "steps": steps}
+
+
+def overlap_scenario(rng, k):
+    """the TTL of a waiting request falls due exactly while the loop holds that request in `processing` and the quota
+    answers 'blocked' (loop held at the q.quota yield point): the watcher's StartProcessing fails at that moment.  After
+    the loop lets go, the request must still get its timeout verdict (quota window far longer than the observation, so
+    no admission can rescue it)."""
+    ttl = [1, 2, 1][k % 3]
+    hold_ms = [350, 500, 900][k % 3]
+    pr = rng.choice(["p0", "p1"])
+    steps = [{"op": "hold", "point": p, "id": ""} for p in ("q.loop_tick", "q.loop_pop", "q.quota")]
+    steps += [{"op": "arrive", "id": "r1", "prio": "p0"}, {"op": "await", "point": "q.enqueued", "id": "r1"},
+              {"op": "pass", "point": "q.loop_tick"}, {"op": "await", "point": "q.loop_pop"},
+              {"op": "pass", "point": "q.loop_pop"}, {"op": "await", "point": "q.quota", "id": "r1"},
+              {"op": "arrive", "id": "r2", "prio": pr}, {"op": "await", "point": "q.enqueued", "id": "r2"},
+              {"op": "pass", "point": "q.quota", "id": "r1"}, {"op": "await", "point": "q.loop_pop"},     # r1 admitted: quota used up
+              {"op": "until", "ms": ttl * 1000 - 150},
+              {"op": "pass", "point": "q.loop_pop"}, {"op": "await", "point": "q.quota", "id": "r2"},    # r2 in `processing`, answer: blocked
+              {"op": "until", "ms": ttl * 1000 + hold_ms},                                               # its TTL falls due meanwhile
+              {"op": "pass", "point": "q.quota", "id": "r2"}, {"op": "await", "point": "q.requeued", "id": "r2"},
+              {"op": "end"}]
+    return {"name": "overlap-%d" % k, "config": {"ttl_s": ttl, "queue_size": 2, "qmax": 1, "qwin_s": 60, "slack_ms": SLACK_MS},
+            "steps": steps}
+
+
+def refill_scenario(rng, k):
+    """a history, not a single burst: some requests end by TTL expiry while the quota is exhausted, then more requests
+    than the queue holds arrive at once - the size clause is judged after the slots were given back (free-running)."""
+    size = [2, 1, 3][k % 3]
+    nto = [2, 1, 3][k % 3]                     # requests that time out first (they fill the queue)
+    ids = list(IDS)
+    steps = [{"op": "arrive", "id": ids[0], "prio": "p0"}, {"op": "await_verdict", "id": ids[0]}]      # uses up the quota
+    first = ids[1:1 + nto]
+    for i in first:
+        steps.append({"op": "arrive", "id": i, "prio": rng.choice(["p0", "p1"])})
+    for i in first:
+        steps.append({"op": "await_verdict", "id": i})
+    steps.append({"op": "sleep", "ms": rng.choice([30, 120])})          # the asynchronous clean-up runs
+    for i in ids[1 + nto:1 + nto + size + 3]:
+        steps.append({"op": "arrive", "id": i, "prio": rng.choice(["p0", "p1", "p2"])})
+    steps.append({"op": "end"})
+    return {"name": "refill-%d" % k, "config": {"ttl_s": 1, "queue_size": size, "qmax": 1, "qwin_s": 60, "slack_ms": SLACK_MS},
+            "steps": steps}
+
+
 def run(ctx):
     T = ctx.thorough
     binary = ctx.build_harness("c06")
@@ -475,7 +551,8 @@ def run(ctx):
     seen = set()
     ctx.cov["rule"] = ("recordings of the real Queue processor in a real engine: (a) schedules of the TLA+ model FlowQueueI "
                        "(TLC counterexamples of every model variant + TLC -simulate walks) forced through the yield points, "
-                       "(b) bursts queued behind a held loop, (c) seeded free-running concurrent arrivals with random priorities / "
+                       "(b) bursts queued behind a held loop, bursts of 6-8 waiters of 3+ priorities with TTL expiries inside the queue, "
+                       "watcher/loop overlap on one request with a blocked quota answer, timeouts followed by an over-size burst, (c) seeded free-running concurrent arrivals with random priorities / "
                        "queue sizes / quotas / shutdown; a recording is non-trivial when at least two requests waited in the "
                        "queue at the same time; distinct by the sequence of (event, request, outcome)")
     ctx.cov["checker_cmd"] = ("tlc -config MC_fixed2.cfg MC_C06.tla ; (thorough) tlc -config MC_asis3.cfg MC_C06.tla ; tlc -config MC_fixed3.cfg "
@@ -552,6 +629,15 @@ def run(ctx):
     for k in range(nb):
         scs.append(burst_scenario(ctx.rng, k))
         names.append("burst-%d" % k)
+    for k in range(10 if not T else 40):
+        scs.append(expiry_burst_scenario(ctx.rng, k))
+        names.append("expiry-burst-%d" % k)
+    for k in range(3 if not T else 9):
+        scs.append(overlap_scenario(ctx.rng, k))
+        names.append("overlap-%d" % k)
+    for k in range(3 if not T else 9):
+        scs.append(refill_scenario(ctx.rng, k))
+        names.append("refill-%d" % k)
     # ---- (4) code -> spec: free-running recordings
     nr = 30 if not T else 400
     for k in range(nr):
@@ -588,6 +674,9 @@ def run(ctx):
         if v is None:
             ctx.notes.append("open finding %s: the model's counterexample no longer shows on the real code" % kf)
 
+    for n, t in zip(names, traces):          # the scripted families must have been followed (else they show nothing)
+        if n.startswith(("expiry-burst", "overlap", "burst")) and any(e["ev"] == "diverged" for e in t):
+            ctx.notes.append("scripted scenario %s could not be followed: %s" % (n, [e for e in t if e["ev"] == "diverged"][0].get("why")))
     report(ctx, binary, [(n, sc, t, v) for n, sc, t, v in zip(names, scs, traces, verdicts) if v is not None])
     if not ctx.violations and forced < max(3, len(walks) // 4):
         raise Broken("only %d of %d model schedules could be forced on the real code (binding lost)" % (forced, len(steps_of)))
